@@ -148,6 +148,9 @@ func BuiltinParseRFC3339(env *lisp.LEnv, args *lisp.LVal) *lisp.LVal {
 		return env.Errorf("argument is not a string: %v", stamp.Type)
 	}
 	t, err := time.Parse(time.RFC3339, stamp.Str)
+	if err == nil {
+		err = checkStrictRFC3339(time.RFC3339, stamp.Str)
+	}
 	if err != nil {
 		return env.Error(err)
 	}
@@ -160,10 +163,44 @@ func BuiltinParseRFC3339Nano(env *lisp.LEnv, args *lisp.LVal) *lisp.LVal {
 		return env.Errorf("argument is not a string: %v", stamp.Type)
 	}
 	t, err := time.Parse(time.RFC3339Nano, stamp.Str)
+	if err == nil {
+		err = checkStrictRFC3339(time.RFC3339Nano, stamp.Str)
+	}
 	if err != nil {
 		return env.Error(err)
 	}
 	return Time(t)
+}
+
+// checkStrictRFC3339 rejects the strings that time.Parse accepts for the
+// RFC 3339 layouts although RFC 3339 section 5.6 does not allow them.  Layout
+// matching cannot express these rules (https://go.dev/issue/54580): the hour
+// element takes one or two digits, a comma is taken as the fraction separator,
+// and the numeric offset is only checked against hour > 24 and minute > 60.
+// s must already have parsed successfully with layout, which fixes the
+// position of every field up to the hour.
+func checkStrictRFC3339(layout, s string) error {
+	fail := func(elem, val, msg string) error {
+		return &time.ParseError{Layout: layout, Value: s, LayoutElem: elem, ValueElem: val, Message: msg}
+	}
+	const hour = len("2006-01-02T")
+	if len(s) <= hour+2 || s[hour+1] == ':' { // time-hour = 2DIGIT
+		return fail("15", s[hour:], ": hour must be two digits")
+	}
+	const frac = len("2006-01-02T15:04:05")
+	if len(s) > frac && s[frac] == ',' { // time-secfrac = "." 1*DIGIT
+		return fail(".", ",", ": fraction separator must be a period")
+	}
+	if n := len(s); s[n-1] != 'Z' && n >= len("Z07:00") { // time-numoffset = ("+" / "-") time-hour ":" time-minute
+		off := s[n-len("Z07:00"):]
+		if off[1] > '2' || (off[1] == '2' && off[2] > '3') {
+			return fail("Z07:00", off, ": timezone hour out of range")
+		}
+		if off[4] > '5' {
+			return fail("Z07:00", off, ": timezone minute out of range")
+		}
+	}
+	return nil
 }
 
 func BuiltinFormatRFC3339(env *lisp.LEnv, args *lisp.LVal) *lisp.LVal {
